@@ -134,7 +134,36 @@ func (g *ScopeGen) body(e *scopeEnv, n int, shadowed *bool) []string {
 		}
 	}
 	for k := 0; k < n; k++ {
-		switch g.pick(9) {
+		switch g.pick(10) {
+		case 9: // a lock-step loop whose variables are pool names, some of them locals already, then a new local
+			nv := 2 + g.pick(2)
+			lvs, its, seen := []string{}, []string{}, map[string]bool{}
+			for len(lvs) < nv {
+				lv := g.poolName()
+				if seen[lv] {
+					continue
+				}
+				seen[lv] = true
+				lvs = append(lvs, lv)
+				its = append(its, fmt.Sprintf("fromto(%d, %d)", 10*len(lvs), 10*len(lvs)+2+g.pick(2)))
+			}
+			tgt := g.poolName()
+			for seen[tgt] {
+				tgt = g.poolName()
+			}
+			for _, lv := range lvs {
+				assign(lv)
+			}
+			assign(tgt)
+			first := tgt + " = " + strings.Join(lvs, " * 100 + ")
+			if e.locals[tgt] && g.pick(2) == 0 {
+				first = tgt + " = " + tgt + " + " + strings.Join(lvs, " * 100 + ")
+			}
+			lines = append(lines, "for "+strings.Join(lvs, ", ")+" <- "+strings.Join(its, ", ")+" {\n"+first+"\n}")
+			for _, lv := range lvs {
+				e.locals[lv] = true
+			}
+			e.locals[tgt] = true
 		case 0, 1, 2: // assignment, possibly of a name bound outside (shadowing) and reading it
 			name := g.poolName()
 			rhs := g.intExpr(e, 1+g.pick(2))
